@@ -150,8 +150,9 @@ def main():
             else:
                 bad = [p for p, v in res.items() if v["rc"] == 1]
                 inc = [p for p, v in res.items() if v["rc"] == 2]
-                good = not bad
-                print("%-8s %-40s %s%s" % (kind, name, "SILENT" if good else "FALSE-ALARM in %s" % bad, (" (inconclusive: %s)" % inc) if inc else ""))
+                # a check that cannot decide a behaviour-preserving variant exits non-zero as well: that counts against it
+                good = not bad and not inc
+                print("%-8s %-40s %s%s" % (kind, name, "SILENT" if not bad else "FALSE-ALARM in %s" % bad, (" INCONCLUSIVE in %s" % inc) if inc else ""))
             for p_, v_ in res.items():
                 for l in v_.get("lines", []):
                     print("      [%s] %s" % (p_, l))
